@@ -10,6 +10,7 @@ import (
 	"fmt"
 	"os"
 	"os/exec"
+	"path/filepath"
 	"runtime"
 	"sort"
 	"strconv"
@@ -30,6 +31,7 @@ type violation struct {
 	Schedule []int    `json:"schedule"`
 	Key      string   `json:"key"`
 	What     string   `json:"what"`
+	Cold     bool     `json:"cold,omitempty"` // found on the first execution of a fresh process; replayed the same way
 }
 
 type scenarioReport struct {
@@ -125,6 +127,7 @@ func main() {
 	flag.Parse()
 	runtime.GOMAXPROCS(1) // cooperative hand-offs: one OS thread avoids futex traffic
 	c19ops.Quiet()
+	loadPoints()
 	bound := 1
 	maxExec := 20000
 	if *tier == "thorough" {
@@ -138,8 +141,14 @@ func main() {
 			fmt.Fprintln(os.Stderr, err)
 			os.Exit(2)
 		}
-		exp := expected(v.Scenario)
+		var exp []string
+		if !v.Cold {
+			exp = expected(v.Scenario) // also the warm-up the exploration had
+		}
 		x := sched.Run(bodies(v.Scenario), v.Schedule, maxSteps)
+		if v.Cold {
+			exp = expected(v.Scenario)
+		}
 		key, what := judge(x, exp)
 		b, _ := json.Marshal(map[string]any{"key": key, "what": what, "decisions": len(x.Decisions)})
 		fmt.Println(string(b))
@@ -208,6 +217,36 @@ func main() {
 	os.Stdout.Write(b)
 }
 
+// loadPoints reads the instrumenter's report (next to the executable): which package-level variables the statement
+// behind each point reads and writes. The scheduler's happens-before race detection works from it.
+func loadPoints() {
+	exe, err := os.Executable()
+	if err != nil {
+		return
+	}
+	b, err := os.ReadFile(filepath.Join(filepath.Dir(exe), "points.json"))
+	if err != nil {
+		fmt.Fprintln(os.Stderr, "vsched: no points.json next to the executable: race detection over package-level variables is off")
+		return
+	}
+	var rep struct {
+		Points []struct {
+			ID     int      `json:"id"`
+			File   string   `json:"file"`
+			Line   int      `json:"line"`
+			Reads  []string `json:"reads"`
+			Writes []string `json:"writes"`
+		} `json:"points"`
+	}
+	if json.Unmarshal(b, &rep) != nil {
+		return
+	}
+	sched.Points = map[int]sched.PointInfo{}
+	for _, p := range rep.Points {
+		sched.Points[p.ID] = sched.PointInfo{Where: fmt.Sprintf("%s:%d", p.File, p.Line), Reads: p.Reads, Writes: p.Writes}
+	}
+}
+
 func tailStr(s string, n int) string {
 	if len(s) > n {
 		return s[len(s)-n:]
@@ -216,12 +255,19 @@ func tailStr(s string, n int) string {
 }
 
 func runScenario(out *output, sc scenario, bound, maxSteps, maxExec int) {
-	exp := expected(sc)
-	// replay determinism: the default schedule twice must give identical observations
+	// the first execution of the process runs on the initial global state (nothing has been called yet, every lazily
+	// built table or cache is cold): it is judged for hazards and panics, and its results against the sequential
+	// results computed afterwards
 	x1 := sched.Run(bodies(sc), nil, maxSteps)
+	exp := expected(sc)
+	out.Scenarios++
+	if key, what := judge(x1, exp); key != "" {
+		out.Violations = append(out.Violations, violation{Scenario: sc, Schedule: []int{}, Key: key, Cold: true, What: "on the first execution of the process (cold state): " + what})
+		return
+	}
+	// replay determinism: the default schedule twice must give identical observations
 	x2 := sched.Run(bodies(sc), nil, maxSteps)
 	out.ReplayChecks++
-	out.Scenarios++
 	// x1 is also the warm-up (lazy initialisation such as sync.Once may legitimately run there and change the
 	// sequence of scheduling points); what must not change from run to run is what the threads observe
 	if fmt.Sprint(x1.Results, x1.Panics) != fmt.Sprint(x2.Results, x2.Panics) {
